@@ -60,11 +60,13 @@ theorem byte2_bits (h : Hdr) (hk : HOk h) (bos start fin : Bool) :
 
 /-- `decodeSlice` after the header checks, with the begin / end bits as booleans -/
 def sliceTail (d : Dec) (sq : UInt16) (start fin : Bool) (body : Bytes) : Dec × Except SliceErr Bytes :=
-  if start = true ∧ fin = true then (d.resetFragments, .ok body)
+  if start = true ∧ fin = true then
+    if body.length = 0 then (d.resetFragments, .error .err) else (d.resetFragments, .ok body)
   else if start = true then
     ({ d with fragments := [body], fragSize := body.length, nextSeq := sq + 1 }, .error .more)
   else if d.fragSize = 0 then (d, .error .nonStart)
   else if sq ≠ d.nextSeq then (d.resetFragments, .error .err)
+  else if body.length = 0 then (d.resetFragments, .error .err)
   else
     if d.sliceSize + (d.fragSize + body.length) > maxFrameSize then
       ({ d.resetFragments with sliceBuf := [], sliceSize := 0 }, .error .err)
@@ -190,7 +192,7 @@ theorem joinFragments_exact (fs : List Bytes) : joinFragments fs (totalLen fs) =
   simp
 
 /-- the middle and end fragments of a slice whose first fragments the decoder already holds -/
-theorem run_frag_tail (c : EncCfg) (h : Hdr) (hk : HOk h) (m : Bool) (d0 : Dec) (n : Nat) (sq : UInt16)
+theorem run_frag_tail (c : EncCfg) (hc : ValidCfg c) (h : Hdr) (hk : HOk h) (m : Bool) (d0 : Dec) (n : Nat) (sq : UInt16)
     (rest : Bytes) (d : Dec) (hs : d.sliceBuf = d0.sliceBuf) (hz : d.sliceSize = d0.sliceSize)
     (hf0 : d.fragSize ≠ 0) (hfe : d.fragSize = totalLen d.fragments) (hseq : d.nextSeq = sq)
     (hlo : n * (c.max - 4) < rest.length)
@@ -205,7 +207,8 @@ theorem run_frag_tail (c : EncCfg) (h : Hdr) (hk : HOk h) (m : Bool) (d0 : Dec) 
       rw [decodeSlice_hdr c d h hk]
       have h1 : ¬ sq ≠ d.nextSeq := by simp [hseq]
       have h2 : ¬ d.sliceSize + (d.fragSize + rest.length) > maxFrameSize := by omega
-      simp only [sliceTail, Bool.false_eq_true, false_and, if_false, hf0, h1, h2, if_true]
+      have h3 : ¬ rest.length = 0 := by omega
+      simp only [sliceTail, Bool.false_eq_true, false_and, if_false, hf0, h1, h2, h3, if_true]
     have hj : joinFragments (d.fragments ++ [rest]) (d.fragSize + rest.length) = d.fragments.flatten ++ rest := by
       have : d.fragSize + rest.length = totalLen (d.fragments ++ [rest]) := by simp [hfe]
       rw [this, joinFragments_exact]; simp
@@ -233,7 +236,9 @@ theorem run_frag_tail (c : EncCfg) (h : Hdr) (hk : HOk h) (m : Bool) (d0 : Dec) 
       have h1 : ¬ sq ≠ d.nextSeq := by simp [hseq]
       have h2 : ¬ d.sliceSize + (d.fragSize + (rest.take (c.max - 4)).length) > maxFrameSize := by
         rw [htake]; omega
-      simp only [sliceTail, Bool.false_eq_true, false_and, if_false, hf0, h1, h2]
+      have h3 : ¬ (rest.take (c.max - 4)).length = 0 := by
+        rw [htake]; unfold ValidCfg at hc; omega
+      simp only [sliceTail, Bool.false_eq_true, false_and, if_false, hf0, h1, h2, h3]
       rfl
     have hdec := decode_of_err d _ _ _ hds
     obtain ⟨d', r, hrun, hres⟩ := ih (sq + 1) (rest.drop (c.max - 4)) d1 hs hz
@@ -262,11 +267,13 @@ theorem run_frag (c : EncCfg) (hc : ValidCfg c) (h : Hdr) (hk : HOk h) (m : Bool
     (hsz : d0.sliceSize + rest.length ≤ maxFrameSize) :
     ∃ d' r, runDec d (setLast m (emitFrag c h (n + 1) true bos sq rest))
         = (d', List.replicate n .more ++ [r]) ∧ BatchRes m d0 rest d' r := by
+  have hc' := hc
   unfold ValidCfg at hc
   cases n with
   | zero =>
     have hds : decodeSlice d (pk c sq m (hdrBytes h bos true true ++ rest)) = (d.resetFragments, .ok rest) := by
-      rw [decodeSlice_hdr c d h hk]; simp [sliceTail]
+      have h3 : ¬ rest.length = 0 := by omega
+      rw [decodeSlice_hdr c d h hk]; simp [sliceTail, h3]
     have hdec := decode_of_ok d _ _ _ hds
     refine ⟨_, _, ?_, deliver_spec d.resetFragments d0 rest m (by simpa [Dec.resetFragments] using hs)
       (by simpa [Dec.resetFragments] using hz) hsz⟩
@@ -286,7 +293,7 @@ theorem run_frag (c : EncCfg) (hc : ValidCfg c) (h : Hdr) (hk : HOk h) (m : Bool
         = (d1, .error .more) := by
       rw [decodeSlice_hdr c d h hk]; simp [sliceTail, d1]
     have hdec := decode_of_err d _ _ _ hds
-    obtain ⟨d', r, hrun, hres⟩ := run_frag_tail c h hk m d0 n (sq + 1) (rest.drop (c.max - 4)) d1 hs hz
+    obtain ⟨d', r, hrun, hres⟩ := run_frag_tail c hc' h hk m d0 n (sq + 1) (rest.drop (c.max - 4)) d1 hs hz
       (by simp only [d1, htake]; omega) (by simp [d1]) rfl
       (by simp only [List.length_drop]; omega)
       (by simp only [d1, List.length_drop, htake]; omega)
@@ -308,7 +315,7 @@ theorem run_frag (c : EncCfg) (hc : ValidCfg c) (h : Hdr) (hk : HOk h) (m : Bool
 bytes arrive in the slice buffer (or, with the marker, the frame is assembled) -/
 theorem run_batch (c : EncCfg) (hc : ValidCfg c) (h : Hdr) (hk : HOk h) (m : Bool) (d0 d : Dec)
     (batch : List Bytes) (sq : UInt16) (hs : d.sliceBuf = d0.sliceBuf) (hz : d.sliceSize = d0.sliceSize)
-    (hsz : d0.sliceSize + totalLen batch ≤ maxFrameSize) :
+    (hsz : d0.sliceSize + totalLen batch ≤ maxFrameSize) (hne : batch.flatten ≠ []) :
     ∃ d' r, runDec d (setLast m (writeBatch c batch h sq))
         = (d', List.replicate ((writeBatch c batch h sq).length - 1) .more ++ [r]) ∧
       BatchRes m d0 batch.flatten d' r := by
@@ -317,7 +324,8 @@ theorem run_batch (c : EncCfg) (hc : ValidCfg c) (h : Hdr) (hk : HOk h) (m : Boo
       BatchRes m d0 batch.flatten d' r := by
     have hds : decodeSlice d (pk c sq m (hdrBytes h h.bos true true ++ batch.flatten))
         = (d.resetFragments, .ok batch.flatten) := by
-      rw [decodeSlice_hdr c d h hk]; simp [sliceTail]
+      have h3 : ¬ batch.flatten.length = 0 := fun e => hne (List.eq_nil_of_length_eq_zero e)
+      rw [decodeSlice_hdr c d h hk]; simp only [sliceTail, and_self, if_true, h3, if_false]
     have hdec := decode_of_ok d _ _ _ hds
     refine ⟨_, _, ?_, deliver_spec d.resetFragments d0 batch.flatten m (by simpa [Dec.resetFragments] using hs)
       (by simpa [Dec.resetFragments] using hz) (by rw [flatten_length]; exact hsz)⟩
@@ -416,6 +424,79 @@ theorem runDec_append (d : Dec) (ps qs : List Pkt) :
   | nil => simp [runDec]
   | cons p ps ih => simp [runDec, ih]
 
+theorem flatten_ne_nil (b : List Bytes) (hne : b ≠ []) (hpos : ∀ s ∈ b, 0 < s.length) : b.flatten ≠ [] := by
+  cases b with
+  | nil => exact absurd rfl hne
+  | cons x xs =>
+    intro e
+    have := congrArg List.length e
+    have hx := hpos x (by simp)
+    simp only [List.flatten_cons, List.length_append, List.length_nil] at this
+    omega
+
+theorem step_bpos (c : EncCfg) (st : St) (s : Bytes) (hp : ∀ x ∈ st.batch, 0 < x.length) (hs : 0 < s.length) :
+    ∀ x ∈ (step c st s).batch, 0 < x.length := by
+  cases hb : st.bad with
+  | true => rw [step_bad c st s hb]; exact hp
+  | false =>
+    rcases step_cases_h c st s hb with ⟨h1, _, _⟩ | ⟨h1, _, _⟩ | ⟨h1, _, _⟩
+    · rw [h1]; intro x hx
+      simp only [List.mem_append, List.mem_singleton] at hx
+      rcases hx with hx | hx
+      · exact hp x hx
+      · rw [hx]; exact hs
+    · rw [h1]; intro x hx; simp only [List.mem_singleton] at hx; rw [hx]; exact hs
+    · rw [h1]; intro x hx; simp only [List.mem_singleton] at hx; rw [hx]; exact hs
+
+theorem step_bne (c : EncCfg) (st : St) (s : Bytes) (hb : (step c st s).bad = false) :
+    (step c st s).batch ≠ [] := by
+  cases hb0 : st.bad with
+  | true => rw [step_bad c st s hb0] at hb; rw [hb0] at hb; cases hb
+  | false =>
+    rcases step_cases_h c st s hb0 with ⟨h1, _, _⟩ | ⟨h1, _, _⟩ | ⟨h1, _, _⟩ <;> rw [h1] <;> simp
+
+theorem foldl_bpos (c : EncCfg) (ss : List Bytes) (st : St) (hp : ∀ x ∈ st.batch, 0 < x.length)
+    (hs : ∀ s ∈ ss, 0 < s.length) : ∀ x ∈ (ss.foldl (step c) st).batch, 0 < x.length := by
+  induction ss generalizing st with
+  | nil => exact hp
+  | cons s ss ih =>
+    exact ih _ (step_bpos c st s hp (hs s (by simp))) (fun x hx => hs x (by simp [hx]))
+
+theorem foldl_bne (c : EncCfg) (ss : List Bytes) (st : St) (hne : ss ≠ [])
+    (hb : (ss.foldl (step c) st).bad = false) : (ss.foldl (step c) st).batch ≠ [] := by
+  obtain ⟨ini, l, rfl⟩ : ∃ ini l, ss = ini ++ [l] := ⟨_, _, (List.dropLast_concat_getLast hne).symm⟩
+  rw [List.foldl_append] at hb ⊢
+  exact step_bne c _ l hb
+
+/-- every slice the splitter returns has at least 4 bytes, and there is at least one -/
+theorem splitAux_pos (fuel : Nat) (f : Bytes) (ss : List Bytes) (h : splitAux fuel f = some ss) :
+    ss ≠ [] ∧ ∀ s ∈ ss, 4 ≤ s.length := by
+  induction fuel generalizing f ss with
+  | zero => simp [splitAux] at h
+  | succ fuel ih =>
+    simp only [splitAux] at h
+    split at h
+    · simp at h
+    · rename_i hlen
+      cases hi : index001 (f.drop 4) with
+      | none =>
+        simp [hi] at h; subst h
+        exact ⟨by simp, fun s hs => by simp at hs; subst hs; omega⟩
+      | some e =>
+        simp only [hi] at h
+        cases hr : splitAux fuel (f.drop (e + 4)) with
+        | none => simp [hr] at h
+        | some r =>
+          simp [hr] at h; subst h
+          obtain ⟨_, h2⟩ := ih _ _ hr
+          refine ⟨by simp, ?_⟩
+          intro s hs
+          simp only [List.mem_cons] at hs
+          rcases hs with hs | hs
+          · subst hs
+            simp only [List.length_take]; omega
+          · exact h2 s hs
+
 theorem rep_more {α : Type} (x : α) (a g : Nat) (hg : 1 ≤ g) :
     List.replicate a x ++ (List.replicate (g - 1) x ++ [x]) = List.replicate (a + g) x := by
   obtain ⟨k, rfl⟩ : ∃ k, g = k + 1 := ⟨g - 1, by omega⟩
@@ -429,17 +510,19 @@ structure RInv (c : EncCfg) (d0 : Dec) (pre : List Bytes) (st : St) : Prop where
   hok   : HOk st.h
   batch : BatchOk c st.batch ∨ st.batch = []
   plain : ∀ p ∈ st.out, p.marker = false
+  pos   : ∀ x ∈ st.batch, 0 < x.length
   run   : ∃ dec, runDec d0 st.out = (dec, List.replicate st.out.length .more) ∧
             dec.sliceBuf.flatten ++ st.batch.flatten = pre.flatten ∧ dec.sliceSize = totalLen dec.sliceBuf
 
 theorem step_rinv (c : EncCfg) (hc : ValidCfg c) (d0 : Dec) (pre : List Bytes) (st : St) (s : Bytes)
-    (hi : RInv c d0 pre st) (hv : s.getD 3 0 = 0 → 6 ≤ s.length)
+    (hi : RInv c d0 pre st) (hv : s.getD 3 0 = 0 → 6 ≤ s.length) (hs0 : 0 < s.length)
     (hsz : totalLen (pre ++ [s]) ≤ maxFrameSize) : RInv c d0 (pre ++ [s]) (step c st s) := by
   obtain ⟨dec, hrun, hflat, hsize⟩ := hi.run
   have hb := step_nbad c st s hi.nbad hv
   have hk := step_hok c st s hi.hok
+  have hpos := step_bpos c st s hi.pos hs0
   rcases step_cases_h c st s hi.nbad with ⟨h1, h2, h3⟩ | ⟨h1, h2, h3⟩ | ⟨h1, h2, h3⟩
-  · refine ⟨hb, hk, Or.inl (Or.inr ?_), by rw [h2]; exact hi.plain, dec, by rw [h2]; exact hrun, ?_, hsize⟩
+  · refine ⟨hb, hk, Or.inl (Or.inr ?_), by rw [h2]; exact hi.plain, hpos, dec, by rw [h2]; exact hrun, ?_, hsize⟩
     · rw [h1, lenAgg_snoc]; exact h3
     · rw [h1]; simp only [List.flatten_append, ← List.append_assoc, hflat]
   · -- the pending batch is written out
@@ -453,6 +536,7 @@ theorem step_rinv (c : EncCfg) (hc : ValidCfg c) (d0 : Dec) (pre : List Bytes) (
       simp only [totalLen_append, totalLen_singleton] at hsz
       omega
     obtain ⟨d', r, hrb, hres⟩ := run_batch c hc st.h hi.hok false dec dec st.batch st.seq rfl rfl hlen
+      (flatten_ne_nil _ h3 hi.pos)
     have hplainwb : ∀ p ∈ writeBatch c st.batch st.h st.seq, p.marker = false :=
       fun p hp => (writeBatch_meta _ _ _ _ p hp).2.2
     rw [setLast_false _ hplainwb] at hrb
@@ -460,7 +544,7 @@ theorem step_rinv (c : EncCfg) (hc : ValidCfg c) (d0 : Dec) (pre : List Bytes) (
     obtain ⟨r1, r2, r3⟩ := hres
     have hne := writeBatch_ne_nil c hc st.batch st.h st.seq
     have hl1 : 1 ≤ (writeBatch c st.batch st.h st.seq).length := List.length_pos_iff.mpr hne
-    refine ⟨hb, hk, Or.inl (Or.inl (by rw [h1]; rfl)), ?_, d', ?_, ?_, ?_⟩
+    refine ⟨hb, hk, Or.inl (Or.inl (by rw [h1]; rfl)), ?_, hpos, d', ?_, ?_, ?_⟩
     · rw [h2]
       intro p hp
       simp only [List.mem_append] at hp
@@ -474,14 +558,14 @@ theorem step_rinv (c : EncCfg) (hc : ValidCfg c) (d0 : Dec) (pre : List Bytes) (
     · rw [h1, r1]
       simp only [List.flatten_append, List.flatten_cons, List.flatten_nil, List.append_nil, hflat]
     · rw [r1, r2, hsize]; simp [flatten_length]
-  · refine ⟨hb, hk, Or.inl (Or.inl (by rw [h1]; rfl)), by rw [h2]; exact hi.plain, dec, by rw [h2]; exact hrun, ?_, hsize⟩
+  · refine ⟨hb, hk, Or.inl (Or.inl (by rw [h1]; rfl)), by rw [h2]; exact hi.plain, hpos, dec, by rw [h2]; exact hrun, ?_, hsize⟩
     rw [h1]
     rw [h3] at hflat
     simp only [List.flatten_nil, List.append_nil] at hflat
     simp [hflat]
 
 theorem foldl_rinv (c : EncCfg) (hc : ValidCfg c) (d0 : Dec) (ss : List Bytes) (pre : List Bytes) (st : St)
-    (hi : RInv c d0 pre st) (hv : ∀ s ∈ ss, s.getD 3 0 = 0 → 6 ≤ s.length)
+    (hi : RInv c d0 pre st) (hv : ∀ s ∈ ss, s.getD 3 0 = 0 → 6 ≤ s.length) (hs0 : ∀ s ∈ ss, 0 < s.length)
     (hsz : totalLen (pre ++ ss) ≤ maxFrameSize) : RInv c d0 (pre ++ ss) (ss.foldl (step c) st) := by
   induction ss generalizing pre st with
   | nil => simpa using hi
@@ -490,8 +574,8 @@ theorem foldl_rinv (c : EncCfg) (hc : ValidCfg c) (d0 : Dec) (ss : List Bytes) (
       simp only [totalLen_append, totalLen_singleton] at hsz ⊢
       have : totalLen (s :: ss) = s.length + totalLen ss := by simp [totalLen]
       omega
-    have := ih (pre ++ [s]) (step c st s) (step_rinv c hc d0 pre st s hi (hv s (by simp)) h1)
-      (fun x hx => hv x (by simp [hx])) (by simpa using hsz)
+    have := ih (pre ++ [s]) (step c st s) (step_rinv c hc d0 pre st s hi (hv s (by simp)) (hs0 s (by simp)) h1)
+      (fun x hx => hv x (by simp [hx])) (fun x hx => hs0 x (by simp [hx])) (by simpa using hsz)
     simpa using this
 
 /-- the slices of a frame concatenate to the frame -/
@@ -537,16 +621,20 @@ theorem c03_roundtrip (e : Enc) (f : Bytes) (d : Dec) (ps : List Pkt)
   have hflat : ss.flatten = f := splitAux_flatten _ _ _ hsp
   have htot : totalLen ss = f.length := by rw [← flatten_length, hflat]
   obtain ⟨hd1, hd2⟩ := hd
+  obtain ⟨hssne, hss4⟩ := splitAux_pos _ _ _ hsp
+  have hss0 : ∀ s ∈ ss, 0 < s.length := fun s hs => by have := hss4 s hs; omega
   have h0 : RInv e.cfg d [] { seq := e.seq } :=
-    ⟨rfl, hok_init, Or.inr rfl, by simp, d, by simp [runDec], by simp [hd1], by simp [hd1, hd2]⟩
-  have hi := foldl_rinv e.cfg hc d ss [] { seq := e.seq } h0 hv (by simpa [htot] using hmaxf)
+    ⟨rfl, hok_init, Or.inr rfl, by simp, by simp, d, by simp [runDec], by simp [hd1], by simp [hd1, hd2]⟩
+  have hi := foldl_rinv e.cfg hc d ss [] { seq := e.seq } h0 hv hss0 (by simpa [htot] using hmaxf)
   rw [List.nil_append, ← hst] at hi
   obtain ⟨dec, hrun, hfl, hsize⟩ := hi.run
   have hlen : dec.sliceSize + totalLen st.batch ≤ maxFrameSize := by
     have := congrArg List.length hfl
     simp only [List.length_append, flatten_length] at this
     omega
+  have hbne : st.batch ≠ [] := by rw [hst]; exact foldl_bne e.cfg ss _ hssne (by rw [← hst]; exact hi.nbad)
   obtain ⟨d', r, hrb, hres⟩ := run_batch e.cfg hc st.h hi.hok true dec dec st.batch st.seq rfl rfl hlen
+    (flatten_ne_nil _ hbne hi.pos)
   simp only [BatchRes, if_true] at hres
   obtain ⟨r1, r2, r3⟩ := hres
   have hJ : joinFragments (dec.sliceBuf ++ [st.batch.flatten]) (dec.sliceSize + st.batch.flatten.length) = f := by
@@ -582,17 +670,18 @@ theorem deliver_marker_clean (d : Dec) (s : Bytes) : Clean (deliver d s true).1 
   · simp only [Bool.not_true, Bool.false_eq_true, if_false]
     split <;> exact ⟨rfl, rfl⟩
 
-theorem tail_cleans (c : EncCfg) (h : Hdr) (hk : HOk h) (n : Nat) (sq : UInt16) (rest : Bytes) (d : Dec)
-    (ht : TailState d sq) :
+theorem tail_cleans (c : EncCfg) (hc : ValidCfg c) (h : Hdr) (hk : HOk h) (n : Nat) (sq : UInt16)
+    (rest : Bytes) (d : Dec) (ht : TailState d sq) (hlo : n * (c.max - 4) < rest.length) :
     Clean (runDec d (setLast true (emitFrag c h (n + 1) false false sq rest))).1 := by
   induction n generalizing sq rest d with
   | zero =>
     simp only [emitFrag, setLast, runDec]
     show Clean (decode d (pk c sq true (hdrBytes h false false true ++ rest))).1
     have hds := decodeSlice_hdr c d h hk false false true sq true rest
-    rcases ht with ⟨h1, h2⟩ | ⟨h1, h2, h3⟩
+    have h3 : ¬ rest.length = 0 := by omega
+    rcases ht with ⟨h1, h2⟩ | ⟨h1, h2, h3'⟩
     · have hn : ¬ sq ≠ d.nextSeq := by simp [h2]
-      simp only [sliceTail, Bool.false_eq_true, false_and, if_false, h1, hn] at hds
+      simp only [sliceTail, Bool.false_eq_true, false_and, if_false, h1, hn, h3] at hds
       by_cases hov : d.sliceSize + (d.fragSize + rest.length) > maxFrameSize
       · rw [if_pos hov] at hds
         rw [decode_of_err d _ _ _ hds]; exact ⟨rfl, rfl⟩
@@ -600,8 +689,15 @@ theorem tail_cleans (c : EncCfg) (h : Hdr) (hk : HOk h) (n : Nat) (sq : UInt16) 
         simp only [if_true] at hds
         rw [decode_of_ok d _ _ _ hds]; exact deliver_marker_clean _ _
     · simp only [sliceTail, Bool.false_eq_true, false_and, if_false, h1, if_true] at hds
-      rw [decode_of_err d _ _ _ hds]; exact ⟨h2, h3⟩
+      rw [decode_of_err d _ _ _ hds]; exact ⟨h2, h3'⟩
   | succ n ih =>
+    have hcv := hc
+    unfold ValidCfg at hcv
+    have hmul : (n + 1) * (c.max - 4) = n * (c.max - 4) + (c.max - 4) := by rw [Nat.add_mul]; omega
+    have hlen : c.max - 4 < rest.length := by
+      have : 0 ≤ n * (c.max - 4) := Nat.zero_le _
+      omega
+    have htake : (rest.take (c.max - 4)).length = c.max - 4 := by simp [List.length_take]; omega
     have hne : emitFrag c h (n + 1) false false (sq + 1) (rest.drop (c.max - 4)) ≠ [] := by
       intro e; have := congrArg List.length e; simp [emitFrag_length] at this
     simp only [emitFrag]
@@ -610,31 +706,35 @@ theorem tail_cleans (c : EncCfg) (h : Hdr) (hk : HOk h) (n : Nat) (sq : UInt16) 
     show Clean (runDec (decode d (pk c sq false (hdrBytes h false false false ++ rest.take (c.max - 4)))).1
       (setLast true (emitFrag c h (n + 1) false false (sq + 1) (rest.drop (c.max - 4))))).1
     apply ih
-    have hds := decodeSlice_hdr c d h hk false false false sq false (rest.take (c.max - 4))
-    rcases ht with ⟨h1, h2⟩ | ⟨h1, h2, h3⟩
-    · have hn : ¬ sq ≠ d.nextSeq := by simp [h2]
-      simp only [sliceTail, Bool.false_eq_true, false_and, if_false, h1, hn] at hds
-      by_cases hov : d.sliceSize + (d.fragSize + (rest.take (c.max - 4)).length) > maxFrameSize
-      · rw [if_pos hov] at hds
-        rw [decode_of_err d _ _ _ hds]; exact Or.inr ⟨rfl, rfl, rfl⟩
-      · rw [if_neg hov] at hds
-        rw [decode_of_err d _ _ _ hds]
-        left
-        refine ⟨?_, by simp [h2]⟩
-        simp only; omega
-    · simp only [sliceTail, Bool.false_eq_true, false_and, if_false, h1, if_true] at hds
-      rw [decode_of_err d _ _ _ hds]; exact Or.inr ⟨h1, h2, h3⟩
+    · have hds := decodeSlice_hdr c d h hk false false false sq false (rest.take (c.max - 4))
+      have h3 : ¬ (rest.take (c.max - 4)).length = 0 := by rw [htake]; omega
+      rcases ht with ⟨h1, h2⟩ | ⟨h1, h2, h3'⟩
+      · have hn : ¬ sq ≠ d.nextSeq := by simp [h2]
+        simp only [sliceTail, Bool.false_eq_true, false_and, if_false, h1, hn, h3] at hds
+        by_cases hov : d.sliceSize + (d.fragSize + (rest.take (c.max - 4)).length) > maxFrameSize
+        · rw [if_pos hov] at hds
+          rw [decode_of_err d _ _ _ hds]; exact Or.inr ⟨rfl, rfl, rfl⟩
+        · rw [if_neg hov] at hds
+          rw [decode_of_err d _ _ _ hds]
+          left
+          refine ⟨?_, by simp [h2]⟩
+          simp only; omega
+      · simp only [sliceTail, Bool.false_eq_true, false_and, if_false, h1, if_true] at hds
+        rw [decode_of_err d _ _ _ hds]; exact Or.inr ⟨h1, h2, h3'⟩
+    · simp only [List.length_drop]; omega
 
 /-- the packets of the LAST batch of a frame (marker on the last packet) leave nothing buffered,
 whatever the decoder's state before them -/
 theorem last_batch_cleans (c : EncCfg) (hc : ValidCfg c) (h : Hdr) (hk : HOk h) (batch : List Bytes)
-    (sq : UInt16) (d : Dec) : Clean (runDec d (setLast true (writeBatch c batch h sq))).1 := by
+    (sq : UInt16) (d : Dec) (hbne : batch.flatten ≠ []) :
+    Clean (runDec d (setLast true (writeBatch c batch h sq))).1 := by
   have agg : Clean (runDec d (setLast true (writeAggregated c batch h sq))).1 := by
     simp only [writeAggregated, setLast, runDec]
     show Clean (decode d (pk c sq true (hdrBytes h h.bos true true ++ batch.flatten))).1
     have hds : decodeSlice d (pk c sq true (hdrBytes h h.bos true true ++ batch.flatten))
         = (d.resetFragments, .ok batch.flatten) := by
-      rw [decodeSlice_hdr c d h hk]; simp [sliceTail]
+      have h3 : ¬ batch.flatten.length = 0 := fun e => hbne (List.eq_nil_of_length_eq_zero e)
+      rw [decodeSlice_hdr c d h hk]; simp only [sliceTail, and_self, if_true, h3, if_false]
     rw [decode_of_ok d _ _ _ hds]; exact deliver_marker_clean _ _
   unfold writeBatch
   split
@@ -646,8 +746,10 @@ theorem last_batch_cleans (c : EncCfg) (hc : ValidCfg c) (h : Hdr) (hk : HOk h) 
       unfold ValidCfg at hcv
       have hs0 : 0 < s.length := by simp [lenAgg] at hge; omega
       have hp := ceilDiv_pos s.length (c.max - 4) (by omega) hs0
-      rw [← packetCount_eq] at hp
+      have hlow := ceilDiv_lower s.length (c.max - 4) (by omega) hs0
+      rw [← packetCount_eq] at hp hlow
       obtain ⟨k, hk'⟩ := Nat.exists_eq_succ_of_ne_zero (Nat.pos_iff_ne_zero.mp hp)
+      rw [hk'] at hlow
       simp only [writeFragmented, hk']
       cases k with
       | zero =>
@@ -655,9 +757,16 @@ theorem last_batch_cleans (c : EncCfg) (hc : ValidCfg c) (h : Hdr) (hk : HOk h) 
         show Clean (decode d (pk c sq true (hdrBytes h h.bos true true ++ s))).1
         have hds : decodeSlice d (pk c sq true (hdrBytes h h.bos true true ++ s))
             = (d.resetFragments, .ok s) := by
-          rw [decodeSlice_hdr c d h hk]; simp [sliceTail]
+          have h3 : ¬ s.length = 0 := by omega
+          rw [decodeSlice_hdr c d h hk]; simp only [sliceTail, and_self, if_true, h3, if_false]
         rw [decode_of_ok d _ _ _ hds]; exact deliver_marker_clean _ _
       | succ k =>
+        have hlow' : (k + 1) * (c.max - 4) < s.length := by simpa using hlow
+        have hmul : (k + 1) * (c.max - 4) = k * (c.max - 4) + (c.max - 4) := by
+          rw [Nat.add_mul]; omega
+        have hlen : c.max - 4 < s.length := by
+          have : 0 ≤ k * (c.max - 4) := Nat.zero_le _
+          omega
         have hne : emitFrag c h (k + 1) false false (sq + 1) (s.drop (c.max - 4)) ≠ [] := by
           intro e; have := congrArg List.length e; simp [emitFrag_length] at this
         simp only [emitFrag]
@@ -665,21 +774,17 @@ theorem last_batch_cleans (c : EncCfg) (hc : ValidCfg c) (h : Hdr) (hk : HOk h) 
         simp only [runDec]
         show Clean (runDec (decode d (pk c sq false (hdrBytes h h.bos true false ++ s.take (c.max - 4)))).1
           (setLast true (emitFrag c h (k + 1) false false (sq + 1) (s.drop (c.max - 4))))).1
-        apply tail_cleans c h hk
-        have hds : decodeSlice d (pk c sq false (hdrBytes h h.bos true false ++ s.take (c.max - 4)))
-            = ({ d with fragments := [s.take (c.max - 4)], fragSize := (s.take (c.max - 4)).length,
-                        nextSeq := sq + 1 }, .error .more) := by
-          rw [decodeSlice_hdr c d h hk]; simp [sliceTail]
-        rw [decode_of_err d _ _ _ hds]
-        left
-        refine ⟨?_, rfl⟩
-        have hlow := ceilDiv_lower s.length (c.max - 4) (by omega) hs0
-        rw [← packetCount_eq, hk'] at hlow
-        have hmul : (k + 1 + 1 - 1) * (c.max - 4) = k * (c.max - 4) + (c.max - 4) := by
-          rw [Nat.add_sub_cancel, Nat.add_mul]; omega
-        simp only [List.length_take]
-        have : 0 ≤ k * (c.max - 4) := Nat.zero_le _
-        omega
+        apply tail_cleans c hc h hk
+        · have hds : decodeSlice d (pk c sq false (hdrBytes h h.bos true false ++ s.take (c.max - 4)))
+              = ({ d with fragments := [s.take (c.max - 4)], fragSize := (s.take (c.max - 4)).length,
+                          nextSeq := sq + 1 }, .error .more) := by
+            rw [decodeSlice_hdr c d h hk]; simp [sliceTail]
+          rw [decode_of_err d _ _ _ hds]
+          left
+          refine ⟨?_, rfl⟩
+          simp only [List.length_take]
+          omega
+        · simp only [List.length_drop]; omega
   · exact agg
 
 /-- the header values stay in range along the loop (needed for the last batch) -/
@@ -693,10 +798,22 @@ with megabytes of stale slices buffered), the packets of one intact frame, in or
 buffered. -/
 theorem c07_flush (e : Enc) (f : Bytes) (d : Dec) (ps : List Pkt) (hc : ValidCfg e.cfg)
     (hps : (encode e f).2 = some ps) : Clean (runDec d ps).1 := by
-  obtain ⟨ss, st, _, hst, hpseq⟩ := encode_shape e f ps hc hps
+  obtain ⟨ss, st, hsp, hst, hpseq⟩ := encode_shape e f ps hc hps
+  obtain ⟨_, st', _, hst', hbad, _, _⟩ := encode_some e f ps hps
   have hk : HOk st.h := by rw [hst]; exact foldl_hok e.cfg ss _ hok_init
+  obtain ⟨hssne, hss4⟩ := splitAux_pos _ _ _ hsp
+  have hpos : ∀ x ∈ st.batch, 0 < x.length := by
+    rw [hst]
+    exact foldl_bpos e.cfg ss _ (by simp) (fun s hs => by have := hss4 s hs; omega)
+  have hbne : st.batch ≠ [] := by
+    rw [hst]
+    apply foldl_bne e.cfg ss _ hssne
+    -- the loop did not fail: `encode` returned packets
+    cases hb : (ss.foldl (step e.cfg) { seq := e.seq }).bad with
+    | false => rfl
+    | true => simp [encode, hsp, hb] at hps
   rw [hpseq, runDec_append]
-  exact last_batch_cleans e.cfg hc st.h hk st.batch st.seq _
+  exact last_batch_cleans e.cfg hc st.h hk st.batch st.seq _ (flatten_ne_nil _ hbne hpos)
 
 /-- **C07 resynchronisation**: after ANY packet history `h`, an intact frame `f` followed by an
 intact frame `g` ends with exactly `g`, returned at `g`'s last packet and not before. -/
